@@ -667,6 +667,10 @@ type c60HdrCase struct {
 	Dst16    bool   `json:"dst16"`
 	Options  []byte `json:"options"` // multiple of 4, <= 40
 	Trailer  []byte `json:"trailer"` // payload bytes following the header in the parsed buffer
+	// PrevOptions are the options of a header parsed into the same Header value first
+	// (Parse is a method on *Header: values may be reused); nil = fresh value only.
+	PrevOptions []byte `json:"prev_options"`
+	Reuse       bool   `json:"reuse"`
 }
 
 func c60HdrGen(t *rapid.T) c60HdrCase {
@@ -690,6 +694,11 @@ func c60HdrGen(t *rapid.T) c60HdrCase {
 			return rapid.SliceOfN(rapid.Byte(), n, n).Draw(t, "optionBytes")
 		}).Draw(t, "options"),
 		Trailer:  rapid.SliceOfN(rapid.Byte(), 0, 8).Draw(t, "trailer"),
+		Reuse:    rapid.Bool().Draw(t, "reuse"),
+		PrevOptions: rapid.Custom(func(t *rapid.T) []byte {
+			n := 4 * rapid.IntRange(0, 10).Draw(t, "prevOptionWords")
+			return rapid.SliceOfN(rapid.Byte(), n, n).Draw(t, "prevOptionBytes")
+		}).Draw(t, "prevOptions"),
 	}
 }
 
@@ -740,6 +749,30 @@ func c60HdrProp(c c60HdrCase, r *vp.Rec) error {
 	}
 	if g := c60HdrString(got); g != want {
 		return fmt.Errorf("ParseHeader(Marshal(h)) != h\n got  %s\n want %s\n wire %s", g, want, c60Hex(b))
+	}
+	if c.Reuse && len(c.PrevOptions)%4 == 0 && len(c.PrevOptions) <= 40 {
+		// the same bytes parsed into a Header value that held another header before
+		prev := &ipv4.Header{Version: ipv4.Version, Len: ipv4.HeaderLen + len(c.PrevOptions), TotalLen: 100, TTL: 1, Protocol: 1,
+			Src: net.IPv4(1, 2, 3, 4), Dst: net.IPv4(5, 6, 7, 8), Options: append([]byte{}, c.PrevOptions...)}
+		pb, err := prev.Marshal()
+		if err != nil {
+			return fmt.Errorf("Header.Marshal refused the earlier header: %v", err)
+		}
+		var hh ipv4.Header
+		if err := hh.Parse(pb); err != nil {
+			return fmt.Errorf("Header.Parse failed on Marshal output: %v", err)
+		}
+		if err := hh.Parse(append(append([]byte{}, b...), c.Trailer...)); err != nil {
+			return fmt.Errorf("Header.Parse (reused value) failed on Marshal output: %v (%s)", err, c60Hex(b))
+		}
+		if g := c60HdrString(&hh); g != want {
+			return fmt.Errorf("Header.Parse into a value that earlier held a header with %d option bytes != h\n got  %s\n want %s\n wire %s", len(c.PrevOptions), g, want, c60Hex(b))
+		}
+		r.Class("reused-header-value")
+		if len(c.PrevOptions) > len(c.Options) {
+			r.Class("reused-header-value-with-longer-options")
+			r.NonTrivial()
+		}
 	}
 	if len(c.Options) > 0 {
 		r.Class("with-options")
